@@ -44,3 +44,22 @@ UNITS.append(dict(name='C02.swap.array_dispatch', props=['C02', 'C01'], kind='B'
                dict(name='_dbus_type_reader_get_current_type/_get_element_type/_recurse', file='dbus/dbus-marshal-recursive.c', status='stub', note='abstract reader positioned on an array of the chosen element type'),
                dict(name='_dbus_unpack_uint32, _dbus_type_get_alignment, dbus_type_is_fixed', file=BASIC + ', dbus/dbus-signature.c', status='inlined', note='real code')],
     assumptions=['array data <= 16 bytes (bound); the array is validated: length a multiple of the fixed element size, elements fill it exactly']))
+
+UNITS.append(dict(name='C02.header_copy', props=['C02', 'C12'], kind='P', route='stub', entry='harness',
+    tus=[dict(file='dbus/dbus-marshal-header.c', include_as='VERIF_TU')], harness='harness/c02_hdrcopy.c', unwind=13,
+    replace_calls={'_dbus_string_get_length': 'verif_stub_get_length', '_dbus_string_init_preallocated': 'verif_stub_init_preallocated', '_dbus_string_copy': 'verif_stub_string_copy',
+                   '_dbus_string_free': 'verif_stub_string_free', '_dbus_header_set_serial': 'verif_stub_set_serial'},
+    timeout=300, expect_s=5, must_have=['hcopy.post2', 'hcopy.post4'],
+    functions=[dict(name='_dbus_header_copy', file='dbus/dbus-marshal-header.c', status='enforced', contract='TRUE => own string with the source bytes, every cached field position, padding and byte order equal, serial reset to 0; FALSE => string released; source untouched'),
+               dict(name='_dbus_string_init_preallocated/_copy/_free', file='dbus/dbus-string.c', status='stub', note='may fail (OOM); copy contract enforced by C14.str.copy'),
+               dict(name='_dbus_header_set_serial', file='dbus/dbus-marshal-header.c', status='replaced', note='contract enforced by C12.serial')],
+    assumptions=['loops only over the constant DBUS_HEADER_FIELD_LAST + 1 cache entries (unwound completely: not a bound on the input)']))
+
+UNITS.append(dict(name='C02.iter_init_order', props=['C02', 'C01'], kind='P', route='stub', entry='harness',
+    tus=[dict(file='dbus/dbus-message.c', include_as='VERIF_TU')], harness='harness/c02_iterinit.c',
+    replace_calls={'_dbus_header_get_byte_order': 'verif_stub_header_get_byte_order', '_dbus_message_byteswap': 'verif_stub_ensure_byte_order', 'get_const_signature': 'verif_stub_get_const_signature'},
+    timeout=300, expect_s=5, must_have=['iinit.post2', 'iinit.post3'],
+    functions=[dict(name='dbus_message_iter_init, dbus_message_iter_init_append, _dbus_message_iter_init_common', file='dbus/dbus-message.c', status='enforced', contract='reader/writer initialised with the byte order the message has after the in-place conversion, over its own body and signature'),
+               dict(name='_dbus_message_byteswap (ensure_byte_order)', file='dbus/dbus-message.c', status='replaced', note='converts a foreign-order message to native order (conversion itself: C02.swap.*)'),
+               dict(name='_dbus_type_reader_init, _dbus_type_writer_init_types_delayed, _dbus_header_get_byte_order, get_const_signature', file='dbus/*.c', status='stub', note='arguments logged')],
+    assumptions=[]))
